@@ -74,7 +74,8 @@ def handle (j : Json) : Except String Json := do
   for (st, is) in steps.zip isteps do
     let iok ← (← is.getObjVal? "ok").getBool?
     let ifile := (optField is "file").getD Json.null
-    let unchanged ← (← is.getObjVal? "unchanged").getBool?
+    -- reported for failed commands only (a successful no-op rewrite may reorder hash-map members)
+    let unchanged := optField is "unchanged" == some (Json.bool true)
     let stray ← (← is.getObjVal? "stray_files").getNat?
     let mut mok := true
     match st with
